@@ -61,6 +61,13 @@ def _space(tier):
                 for code in (list(range(256)) if tier == "thorough" else list(range(0, 16)) + [0x80, 0xFF]):
                     for ka in (False, True):
                         out.append(("exc", tr, 0, k, code, ka, "lonefrag_fit"))
+        # a stray first fragment of a read answer (much more than an exception frame still missing) arrives right
+        # before the exception frame, in answer to the same transmission
+        for tr in ("udp", "tcp"):
+            for k in (0, 1):
+                for code in (list(range(256)) if tier == "thorough" else [1, 2, 3, 4, 6, 11, 0x80]):
+                    for ka in (False, True):
+                        out.append(("exc", tr, 0, k, code, ka, "stray_frag"))
         for tr in ("udp", "tcp"):
             for ka in (False, True):
                 out.append(("texts", tr, ka))
@@ -127,7 +134,12 @@ def run_exc(case):
         pre = [{"k": "lonefrag", "s": 2 * n, "d1": DEFAULT_LATENCY}] * k   # answer is 7+2n (RTU) / 9+2n (TCP) bytes long
     else:
         pre = [{"k": "drop"}] * k
-    faults = pre + [{"k": "exc", "code": code, "d": d}]
+    if case.get("prior") == "stray_frag":
+        hdr = 9 if tr == "tcp" else 5
+        faults = [{"k": "drop"}] * k + [{"k": "multi", "parts": [{"what": "prefix", "s": hdr, "d": d / 2},
+                                                                {"what": "exc", "code": code, "d": d}]}]
+    else:
+        faults = pre + [{"k": "exc", "code": code, "d": d}]
     world = World(max_steps=20_000)
     world.net.begin_script(faults, {"k": "ok"})
     dev = SimInverter(mode="stamp")
